@@ -920,6 +920,18 @@ func (pc *PartitionContext) allocate(result *objects.AllocationResult) *objects.
 					zap.String("allocationKey", allocKey),
 					zap.Error(err))
 			}
+			// a normal allocation has already been added to the application and the queue: take it out again
+			// unless the node removal found it on the node and has done that already
+			if result.ResultType == objects.Allocated || result.ResultType == objects.AllocatedReserved {
+				if app.RemoveAllocation(allocKey, si.TerminationType_UNKNOWN_TERMINATION_TYPE) != nil {
+					if err := app.GetQueue().DecAllocatedResource(alloc.GetAllocatedResource()); err != nil {
+						log.Log(log.SchedPartition).Warn("Failed to unwind allocation: queue update failed",
+							zap.String("appID", appID),
+							zap.String("allocationKey", allocKey),
+							zap.Error(err))
+					}
+				}
+			}
 		}
 		return nil
 	}
